@@ -228,6 +228,24 @@ Check C19_loaded_serving_never_panics : forall (ipp : list N -> option ip) (ip4p
   load ipp ip4p sock fuel ndocs y = Ok t -> serve_no_panic (cfg_of_top t) clients = true.
 Print Assumptions C19_loaded_serving_never_panics.
 
+(* the new fields: the RDNSS address lists and DNSSL search lists an accepted
+   document leaves (per interface and at the top level, which interfaces fall
+   back to) fit their options, so the option-length arithmetic of the
+   advertisement serialiser (`u8::try_from(1 + 2n).unwrap()`, `1 + (len / 8) as
+   u8`) does not panic *)
+Theorem C19_loaded_ra_options_fit : forall (ipp : list N -> option ip) (ip4p : list N -> option N)
+  (sock : list N -> bool) (fuel : nat) (ndocs : N) (y : yaml) (t : top),
+  load ipp ip4p sock fuel ndocs y = Ok t -> ra_lens_no_panic t = true.
+Proof. intros ipp ip4p sock fuel ndocs y t H. exact (fits_no_panic t (load_fits ipp ip4p sock fuel ndocs y t H)). Qed.
+Check C19_loaded_ra_options_fit : forall (ipp : list N -> option ip) (ip4p : list N -> option N)
+  (sock : list N -> bool) (fuel : nat) (ndocs : N) (y : yaml) (t : top),
+  load ipp ip4p sock fuel ndocs y = Ok t -> ra_lens_no_panic t = true.
+Print Assumptions C19_loaded_ra_options_fit.
+
+Example C19_ra_options_refuted_without_limits :
+  rdnss_optlen 128 = Panic UnwrapNone /\ dnssl_optlen 2033 = Panic Overflow /\ dnssl_optlen 2032 = Ok 255.
+Proof. vm_compute. repeat split. Qed.
+
 (* the interval cross-check (`3 * max`, u32 * Duration) cannot overflow because
    the interval was range-checked when its key was read *)
 Theorem C19_interval_crosscheck_total : forall (i : iface) (k : panic_kind),
